@@ -108,10 +108,10 @@ func Load(repoDir, harnessDir string, patterns []string) (*Program, error) {
 		}
 	}
 	cfg := &packages.Config{
-		Mode:    packages.LoadAllSyntax,
-		Dir:     repoDir,
-		Overlay: overlay,
-		Env:     append(os.Environ(), "GOFLAGS=-mod=mod", "GOPROXY=off", "GOSUMDB=off", "GOTOOLCHAIN=local", "CGO_ENABLED=0"),
+		Mode:       packages.LoadAllSyntax,
+		Dir:        repoDir,
+		Overlay:    overlay,
+		Env:        append(os.Environ(), "GOFLAGS=-mod=mod", "GOPROXY=off", "GOSUMDB=off", "GOTOOLCHAIN=local", "CGO_ENABLED=0"),
 		BuildFlags: []string{"-tags=verif"},
 	}
 	pkgs, err := packages.Load(cfg, patterns...)
